@@ -60,26 +60,26 @@ Definition released_obs (ops : list cop) : list cvote :=
                      | _ => []
                      end) ops.
 
-Lemma rel_add_fst old new : fst (rel_add old new) = old ++ new.
+Lemma rel_add_fst D old new : fst (rel_add D old new) = old ++ new.
 Proof.
   revert old. induction new as [|v t IH]; intros old; cbn.
   - rewrite app_nil_r. reflexivity.
-  - specialize (IH (old ++ [v])). destruct (rel_add (old ++ [v]) t) as [o' k']. cbn in *.
+  - specialize (IH (old ++ [v])). destruct (rel_add D (old ++ [v]) t) as [o' k']. cbn in *.
     rewrite IH, <- app_assoc. reflexivity.
 Qed.
 
 Lemma obad_rel o b w : o_rel (obad o b w) = o_rel o.
 Proof. unfold obad. destruct (o_ok o && negb b); reflexivity. Qed.
 
-Lemma spec_op_rel own o op :
-  o_rel (spec_op own o op) = o_rel o ++ released_obs [op].
+Lemma spec_op_rel own D o op :
+  o_rel (spec_op own D o op) = o_rel o ++ released_obs [op].
 Proof.
   destruct op as [restored acts|k e acts|rel|ok disk|]; cbn [released_obs flat_map]; rewrite ?app_nil_r.
   - cbn [spec_op]. destruct (lin_add _ _) as [l k]. rewrite !obad_rel. reflexivity.
   - cbn [spec_op]. destruct (lin_add _ _) as [l k']. rewrite !obad_rel. reflexivity.
   - cbn [spec_op]. destruct (map_opt p_cvote rel) as [relv|]; [|rewrite obad_rel, app_nil_r; reflexivity].
     destruct (if o_curk o then _ else _) as [exp aw].
-    pose proof (rel_add_fst (o_rel o) relv) as H. destruct (rel_add (o_rel o) relv) as [r' k1]. cbn in H.
+    pose proof (rel_add_fst D (o_rel o) relv) as H. destruct (rel_add D (o_rel o) relv) as [r' k1]. cbn in H.
     rewrite !obad_rel. cbn. exact H.
   - cbn [spec_op]. destruct (o_reqs o) as [|q qs]; [rewrite obad_rel; reflexivity|].
     destruct ok; [|reflexivity].
@@ -88,8 +88,8 @@ Proof.
   - reflexivity.
 Qed.
 
-Lemma spec_fold_rel own ops : forall o,
-  o_rel (fold_left (spec_op own) ops o) = o_rel o ++ released_obs ops.
+Lemma spec_fold_rel own D ops : forall o,
+  o_rel (fold_left (spec_op own D) ops o) = o_rel o ++ released_obs ops.
 Proof.
   induction ops as [|op ops IH]; intros o; cbn [fold_left].
   - cbn. rewrite app_nil_r. reflexivity.
